@@ -295,8 +295,10 @@ def fresh_replay(spec, path, hashseed='4242'):
 
 def minimise(spec, values, stratum, violation, *, mutant=None, max_attempts=400):
     key = vkey(violation)
+    counter = [0]
 
     def still_fails(cand):
+        counter[0] += 1
         try:
             res, used = run_values(spec, cand, stratum, mutant=mutant)
         except Exception:
@@ -306,7 +308,47 @@ def minimise(spec, values, stratum, violation, *, mutant=None, max_attempts=400)
                 return (vkey(v) == key), used
         return False, None
 
-    return shrink(values, still_fails, max_attempts=max_attempts)
+    best, n1 = shrink(values, still_fails, max_attempts=max_attempts)
+    # structure-aware pass: drop whole generated elements (a client, a message,
+    # a request) together with the count that announces them
+    groups = getattr(spec, 'shrink_groups', ())
+    budget = max_attempts
+    changed = True
+    while groups and changed and budget > 0:
+        changed = False
+        try:
+            res, used = run_values(spec, best, stratum, mutant=mutant, labels=True)
+        except Exception:
+            break
+        labels = [l[0] for l in (res.get('_labels') or [])][:len(best)]
+        for count_label, start_label, stop_labels in groups:
+            if count_label not in labels:
+                continue
+            ci = labels.index(count_label)
+            starts = [i for i, l in enumerate(labels) if l == start_label and i > ci]
+            if not starts or best[ci] == 0:
+                continue
+            for si in reversed(starts):
+                # the group runs until the next start / a stop label / the end
+                ei = si + 1
+                while ei < len(labels) and labels[ei] != start_label and labels[ei] not in stop_labels:
+                    ei += 1
+                cand = best[:ci] + [best[ci] - 1] + best[ci + 1:si] + best[ei:]
+                budget -= 1
+                ok, used2 = still_fails(cand)
+                if ok:
+                    best = list(used2) if used2 is not None and len(used2) <= len(cand) else cand
+                    while best and best[-1] == 0:
+                        best.pop()
+                    changed = True
+                    break
+                if budget <= 0:
+                    break
+            if changed or budget <= 0:
+                break
+    if groups:
+        best, n2 = shrink(best, still_fails, max_attempts=max(50, max_attempts // 3))
+    return best, counter[0]
 
 
 def _run_values_job(args):
